@@ -35,6 +35,7 @@ pub struct Feat {
     pub rle_tokens: u32,
     pub max_symbol_used: u32,
     pub sub_cache: u32,
+    pub directed_flat_group: u32,
     /// for the main image: the arguments of the `lloop` model request (w h bits xsize image single cacheBits), and the ops
     pub trace: Option<(String, String)>,
 }
@@ -270,7 +271,12 @@ fn draw(rng: &mut Rng, dom: Domain, palette: &[u32]) -> u32 {
 fn entropy_image(rng: &mut Rng, w: &mut BitW, xs: u32, ys: u32, main: bool, dom: Domain, f: &mut Feat) -> Vec<u32> {
     let n = (xs * ys) as usize;
     // colour cache
-    let cache_bits = if rng.chance(1, 2) { 0 } else { 1 + rng.below(11) as u32 };
+    // directed family (main images only): a tiny colour cache, meta prefix codes, the group of the
+    // first pixel coded with four single-symbol codes (one flat colour, visited once per block row)
+    // and the other groups mostly colour-cache symbols from a small palette: the flat colour is
+    // evicted from its slot between two visits of its group and must be back after the next one
+    let directed = main && xs >= 5 && ys >= 3 && rng.chance(1, 6);
+    let cache_bits = if directed { 1 + rng.below(2) as u32 } else if rng.chance(1, 2) { 0 } else { 1 + rng.below(11) as u32 };
     if cache_bits > 0 { w.put(1, 1); w.put(u64::from(cache_bits), 4); } else { w.put(0, 1); }
     if main { f.cache_bits = cache_bits; } else if cache_bits > 0 { f.sub_cache += 1; }
     // meta prefix codes
@@ -278,11 +284,11 @@ fn entropy_image(rng: &mut Rng, w: &mut BitW, xs: u32, ys: u32, main: bool, dom:
     let mut meta: Vec<u32> = Vec::new();
     let mut prefix_bits = 0u32;
     if main {
-        if rng.chance(1, 2) {
+        if directed || rng.chance(1, 2) {
             w.put(1, 1);
-            prefix_bits = 2 + rng.below(4) as u32;
+            prefix_bits = if directed { 2 } else { 2 + rng.below(4) as u32 };
             w.put(u64::from(prefix_bits - 2), 3);
-            groups = 1 + rng.below(4) as usize;
+            groups = if directed { 2 + rng.below(3) as usize } else { 1 + rng.below(4) as usize };
             let (mw, mh) = ((xs + (1 << prefix_bits) - 1) >> prefix_bits, (ys + (1 << prefix_bits) - 1) >> prefix_bits);
             meta = entropy_image(rng, w, mw, mh, false, Domain::Groups(groups), f);
             // the number of groups is the largest index used + 1
@@ -304,12 +310,23 @@ fn entropy_image(rng: &mut Rng, w: &mut BitW, xs: u32, ys: u32, main: bool, dom:
     let mut px: Vec<u32> = Vec::with_capacity(n);
     let mut cache = vec![0u32; if cache_bits > 0 { 1 << cache_bits } else { 0 }];
     let mut ops: Vec<(usize, Op)> = Vec::new();
-    let style = rng.below(4); // 0 literals only, 1 few refs, 2 many refs, 3 mostly cache/refs
+    let style = if directed { 3 } else { rng.below(4) }; // 0 literals only, 1 few refs, 2 many refs, 3 mostly cache/refs
+    let flat_group = if directed { Some((group_at(0), rng.next() as u32 | 0xff00_0000)) } else { None };
+    if directed { f.directed_flat_group += 1; }
     while px.len() < n {
         let p = px.len();
         let g = group_at(p);
         let r = rng.below(100);
-        let (pb, pc) = match style { 0 => (0, 0), 1 => (10, 10), 2 => (45, 15), _ => (35, 45) };
+        let (pb, pc) = match style { 0 => (0, 0), 1 => (10, 10), 2 => (45, 15), _ => if directed { (5, 70) } else { (35, 45) } };
+        if let Some((g0, c0)) = flat_group {
+            if g == g0 {
+                px.push(c0);
+                let k = (0x1e35a7bdu32.wrapping_mul(c0) >> (32 - cache_bits)) as usize;
+                cache[k] = c0;
+                ops.push((g, Op::Lit(c0)));
+                continue;
+            }
+        }
         if p > 0 && r < pb {
             // backward reference
             let maxlen = (n - p).min(4096) as u32;
